@@ -19,7 +19,14 @@ func (p *Prog) lowerTop(fi *FuncInfo, ct *Contract) (fv *FuncIVL, err error) {
 			err = fmt.Errorf("%s: %v", fi.Key, r)
 		}
 	}()
-	f := &FuncIVL{Key: fi.Key, Vars: map[string]string{}, HeapVars: map[string]bool{}, Assumptions: map[string]bool{}}
+	f := &FuncIVL{Key: fi.Key, Vars: map[string]string{}, HeapVars: map[string]bool{}, Assumptions: map[string]bool{},
+		VarTypes: map[string]interface{}{}}
+	f.WfOf = func(v *Term, typ interface{}) *Term {
+		if t, ok := typ.(types.Type); ok {
+			return p.wfTerm(v, t, true)
+		}
+		return nil
+	}
 	l := &Lowerer{p: p, f: f, obOrd: map[string]int{}, labels: map[string]*Block{}, fnKey: fi.Key,
 		escaped: map[string]bool{}, escapedHeap: map[string]bool{}, labelSeen: map[string]bool{}, initializing: map[string]bool{}}
 	if ct != nil {
@@ -266,6 +273,7 @@ func (p *Prog) lowerTop(fi *FuncInfo, ct *Contract) (fv *FuncIVL, err error) {
 		}
 	}
 	f.expandPseudo(func(hv string) *Term { return p.zeroForHeapVar(f, hv) })
+	f.dischargeFreshFrames()
 	f.fillLoopHavocs(p.reg)
 	return f, nil
 }
@@ -500,6 +508,9 @@ func (l *Lowerer) frameObligations(ct *Contract, chain []*Contract) {
 		body := Implies(And(cond...), Eq(Select(cur, bv), Select(old, bv)))
 		l.assertOb("frame", strings.TrimPrefix(hv, "F."), "only the declared frame of "+hv+" changes", nil,
 			&Term{Op: "forall", Sort: "Bool", Args: []*Term{bv, body}}, nil)
+		if l.cur != nil && len(l.cur.Stmts) > 0 {
+			l.cur.Stmts[len(l.cur.Stmts)-1].FrameVar = hv
+		}
 	}
 }
 
